@@ -4,6 +4,8 @@ CONSTANTS
   VALS = {"A", "B"}
   MaxOps = 4
   MaxArm = 2
+  MaxRArm = 0
+  EmptySkip = TRUE
   AgeReset = FALSE
 INVARIANT EffectIsPrefix
 INVARIANT HooksCover
